@@ -5,6 +5,18 @@ import json, pathlib
 ALL = [f'C{i:02d}' for i in range(1, 20)]
 
 CHECKS = {
+ 'C09': dict(
+   technique='Coq proof (write emission depends on the compiler state only through the tracked shutter; sound history-independence monitor) + history-level snapshots of real objects, files and reported numbers',
+   text='Props/C09.v: what the modelled write emits depends on the compiler state only through the shutter flag, hence writing '
+        'the same matrix twice emits the same instructions twice; the history monitor (consistentb) is proved sound: when it '
+        'accepts, every observed result is a function of the operation alone. Tie to /repo: devices with waveguides, markers and '
+        'a (U)trench column and a non-zero origin shift go through random histories of write / transform / plot2d / plot3d / pgm '
+        '/ xlsx / toolpath / fabrication_time calls with repeats; digests of results, exported file trees, spreadsheet cells and '
+        'reported lengths/times are checked for history independence and digests of every array/object/list for being '
+        'bit-identical before and after each call.',
+   note='Trusted: Coq kernel; SHA-1 digests and the snapshot code in harness/c09.py; plotly figures digested through their numeric '
+        'trace data. Purity of numpy/shapely internals is observed, not proved.',
+   design='5/C09'),
  'C16': dict(
    technique='Coq model of the routing (buckets by exact type, writer extend/append, flatten, nest_level) with theorems for single objects, foreign values, waveguide groups and the single-column writer + identity-level differential on real objects over call histories',
    text='Props/C16.v: a single supported object goes to the collection of its own type and nowhere else; any other type is rejected '
